@@ -418,6 +418,9 @@ func (w *World) genClause(segOK bool) *J {
 				v = w.scalarOfType([]int{1, 1, 1, 6}[r.Intn(4)])
 			case "before", "after":
 				v = w.scalarOfType([]int{3, 3, 1, 2}[r.Intn(4)])
+				if r.P(0.1 + 0.25*p.PDateAttr) { // instants outside the years a timestamp string can spell (0000-9999), as numbers
+					v = JNum([]float64{253402300800000, 253402300799999, 9007199254740992, -62167219200001, -62167219200000, -1e15}[r.Intn(6)])
+				}
 				if r.P(0.1) { // instants before the epoch, as numbers
 					v = JNum([]float64{-1, -315619200000, -86400000.5, -1e15}[r.Intn(4)])
 				}
